@@ -659,8 +659,13 @@ def monitors(sched, log, snap):
 
 
 def run(ctx):
-    t0 = time.time()
     so = qc.load(ctx)
+    with qc.real_runtime(so):       # not the clock / PRNG an earlier component left behind
+        return _run(ctx, so)
+
+
+def _run(ctx, so):
+    t0 = time.time()
     rng = ctx.rng("queue_model")
     res = {"cases": 0, "distinct": 0, "coverage": {}, "samples": [], "disagreements": [], "violations": []}
     cov = res["coverage"]
